@@ -200,10 +200,12 @@ class AddData(Command):
     label = 'add data'
 
     def do(self, session):
+        self.added = self.data not in session.data_collection.data
         session.data_collection.append(self.data)
 
     def undo(self, session):
-        session.data_collection.remove(self.data)
+        if self.added:
+            session.data_collection.remove(self.data)
 
 
 class RemoveData(Command):
@@ -211,10 +213,12 @@ class RemoveData(Command):
     label = 'remove data'
 
     def do(self, session):
+        self.removed = self.data in session.data_collection.data
         session.data_collection.remove(self.data)
 
     def undo(self, session):
-        session.data_collection.append(self.data)
+        if self.removed:
+            session.data_collection.append(self.data)
 
 
 class NewDataViewer(Command):
